@@ -70,7 +70,7 @@ def off(ctx: Ctx, rule="R-C13-OFF") -> None:
     stores = [n for n in g.calls() if C.bucket_op(ctx, n, ("store_bucket",))]
     ctx.floor(rule, len(stores), 1, "store_bucket calls in set_result_bucket")
     r = flow.reach_under(g, none_env({"result_params"}, True), flow.NORMAL_KINDS + ("raise",))
-    ctx.check(not any(s.id in r for s in stores) and not any(n.id in r for n in g.calls() if "BUCKET_CLASS" in (n.callee or "")), rule, f,
+    ctx.check(not any(s.id in r for s in stores) and not any(n.id in r for n in g.calls() if "BUCKET_CLASS" in C.utext(f, n.ast.func)), rule, f,
               "results disabled -> nothing built or stored", "set_result_bucket returns first when result settings are None",
               "set_result_bucket stores (or builds) a bucket although the message has no result settings", instance="set_result_bucket guard")
     r = flow.reach_under(g, none_env({"result_params"}, False), flow.NORMAL_KINDS)
@@ -88,7 +88,7 @@ def off(ctx: Ctx, rule="R-C13-OFF") -> None:
                   f"process() stores {unparse(a1)} which is not the result of this actor run", node=c, instance="process -> set_result_bucket outcome")
     for name in ("set_result", "set_exception"):
         f = ctx.func(f"{C.MSGDEP}.{name}")
-        g = ctx.cfg(f)
+        g = ctx.icfg(f)
 
         def env(result_none, rbb_none):
             def fn(text, node):
@@ -119,8 +119,8 @@ def _kwmap(call: ast.Call) -> dict[str, ast.expr]:
 def fields(ctx: Ctx, rule="R-C13-FIELDS") -> None:
     f = ctx.func(f"{C.PROCESSOR}.set_result_bucket")
     g = ctx.cfg(f)
-    builds = [n for n in g.calls() if (n.callee or "").endswith("BUCKET_CLASS")]
-    ctx.floor(rule, len(builds), 2, "bucket constructions in set_result_bucket")
+    builds = [n for n in g.calls() if C.utext(f, n.ast.func).endswith("BUCKET_CLASS")]
+    ctx.floor(rule, len(builds), 1, "bucket constructions in set_result_bucket")
     for want_success in (True, False):
         def fn(text, node, want=want_success):
             if isinstance(node, ast.Attribute) and node.attr == "success":
@@ -132,8 +132,9 @@ def fields(ctx: Ctx, rule="R-C13-FIELDS") -> None:
                          f"set_result_bucket builds {len(got)} buckets for success={want_success}", instance=f"bucket[{want_success}] count"):
             continue
         b = got[0]
-        ctx.check("_rb" in (b.callee or "") or "results" in (b.callee or ""), rule, f, "bucket class of the results broker", "ResultBucket class of _rb",
-                  f"the result bucket is built with {b.callee}", node=b, instance=f"bucket[{want_success}] class")
+        bcallee = C.utext(f, b.ast.func)
+        ctx.check("_rb" in bcallee or "results" in bcallee, rule, f, "bucket class of the results broker", "ResultBucket class of _rb",
+                  f"the result bucket is built with {bcallee}", node=b, instance=f"bucket[{want_success}] class")
         kw = _kwmap(b.ast)
         exp = {
             "started_when": lambda v: dotted(v) == "result_actor.started_when",
@@ -149,37 +150,39 @@ def fields(ctx: Ctx, rule="R-C13-FIELDS") -> None:
             exp["exception"] = lambda v: (isinstance(v, ast.Attribute) and v.attr == "__name__" and isinstance(v.value, ast.Call)
                                           and dotted(v.value.func) == "type" and dotted(v.value.args[0]) == "result_actor.exception")
         for k, pred in exp.items():
-            v = kw.get(k)
-            ctx.check(v is not None and pred(v), rule, f, f"bucket[{'success' if want_success else 'failure'}].{k}", f"{k} = {unparse(v) if v is not None else ''}",
-                      f"set_result_bucket ({'success' if want_success else 'failure'} branch) fills {k} with {unparse(v) if v is not None else '<missing>'}",
+            vs = C.values_under(g, f, kw.get(k), r)
+            ctx.check(bool(vs) and all(pred(v) for v in vs), rule, f, f"bucket[{'success' if want_success else 'failure'}].{k}", f"{k} = {[unparse(v) for v in vs]}",
+                      f"set_result_bucket ({'success' if want_success else 'failure'} branch) fills {k} with {[unparse(v) for v in vs] or '<missing>'}",
                       node=b, instance=f"bucket[{want_success}].{k}")
     st = [n for n in g.calls() if C.bucket_op(ctx, n, ("store_bucket",))]
     for s in st:
         a0, a1 = C.arg(s.ast, 0, "id_"), C.arg(s.ast, 1, "payload")
         ctx.check(dotted(a0) == "result_params.id_", rule, f, "stored under result.id_", "the job's result id", f"result stored under {unparse(a0)}", node=s,
                   instance="store id")
-        ok = isinstance(a1, ast.Name) and all(isinstance(d, ast.Call) and (dotted(d.func) or "").endswith("BUCKET_CLASS") for d in C.local_defs(f, a1.id)) and C.local_defs(f, a1.id)
+        ok = isinstance(a1, ast.Name) and all(isinstance(d, ast.Call) and C.utext(f, d.func).endswith("BUCKET_CLASS") for d in C.local_defs(f, a1.id)) and C.local_defs(f, a1.id)
         ctx.check(bool(ok), rule, f, "stored payload is the bucket just built", "bucket stored", f"store_bucket payload {unparse(a1)} is not the bucket built above",
                   node=s, instance="store payload")
         ctx.check("_rb" in (s.callee or "") or "results" in (s.callee or ""), rule, f, "stored on the results broker", "results broker",
                   f"result stored through {s.callee}", node=s, instance="store broker")
     # actor_run: data / exception of the ActorResult
     ar = ctx.func(f"{C.PROCESSOR}._actor_run")
-    finals = [c for c in ast.walk(ar.node) if isinstance(c, ast.Call) and (dotted(c.func) or "").endswith("ActorResult") and C.is_const(C.kw(c, "reporting_done"), False)]
-    ctx.floor(rule, len(finals), 1, "final ActorResult in actor_run")
-    for c in finals:
-        d = C.kw(c, "data")
+    finals_kw = [(c, kwv) for c, kwv in C.constructions(ctx, ar, [x for x in C.own_nodes(ar) if isinstance(x, ast.Return)], "ActorResult") if C.is_const(kwv.get("reporting_done"), False)]
+    ctx.floor(rule, len(finals_kw), 1, "final ActorResult in actor_run")
+    for c, kwv in finals_kw:
+        class _K:  # keyword lookup on the (possibly helper-bound) construction
+            pass
+        d = kwv.get("data")
         ok = isinstance(d, ast.Name) and any(isinstance(x, ast.Call) and isinstance(x.func, ast.Attribute) and x.func.attr == "convert_outputs" for x in C.local_defs(ar, d.id))
         ctx.check(ok, rule, ar, "ActorResult.data = converter-encoded return value", "convert_outputs(actor return value)",
                   f"ActorResult.data is {unparse(d)} and not the converter-encoded return value", node=c, instance="ActorResult.data")
-        e = C.kw(c, "exception")
+        e = kwv.get("exception")
         ctx.check(isinstance(e, ast.Name) and e.id in {"exception", "exc"}, rule, ar, "ActorResult.exception = caught exception", "caught exception",
                   f"ActorResult.exception is {unparse(e)}", node=c, instance="ActorResult.exception")
         for k in ("started_when",):
-            v = C.kw(c, k)
+            v = kwv.get(k)
             ctx.check(isinstance(v, ast.Name) and any(isinstance(x, ast.Call) and (dotted(x.func) or "").endswith("time_ns") for x in C.local_defs(ar, v.id)), rule, ar,
                       f"ActorResult.{k} from the clock before the run", "start time", f"ActorResult.{k} is {unparse(v)}", node=c, instance=f"ActorResult.{k}")
-        v = C.kw(c, "finished_when")
+        v = kwv.get("finished_when")
         ctx.check(isinstance(v, ast.Call) and (dotted(v.func) or "").endswith("time_ns"), rule, ar, "ActorResult.finished_when read at the end", "finish time",
                   f"ActorResult.finished_when is {unparse(v)}", node=c, instance="ActorResult.finished_when")
     # eager stores
